@@ -6,6 +6,8 @@ CONSTANTS
   StepUntil = 0
   TailFrom = 2932896
   MaxN = 0
+  LeapRule = "gregorian"
+  StartDay = 0
   NumLane = 1
   Batch = 2000
   DaysTo = 2932896
